@@ -77,6 +77,9 @@ def run(ctx, flavour="static"):
     os.makedirs(cdir, exist_ok=True)
     if tier == "thorough":
         shards, hist, maxn, steps = 16, 40, 10, 400
+    elif tier == "escalate":
+        # search for a concrete failing input after a broken correspondence: between the two tiers (minutes, not half an hour)
+        shards, hist, maxn, steps = 16, 12, 8, 300
     else:
         shards, hist, maxn, steps = 16, 4, 6, 200
     if flavour in ("dyn", "ff"):
@@ -87,6 +90,9 @@ def run(ctx, flavour="static"):
             FLAVOURS["dagrun"] = ["-dagrun", "-thorough"]
     if flavour in SIZES:
         shards, hist, maxn, steps = SIZES[flavour][1 if tier == "thorough" else 0]
+        if tier == "escalate":
+            q, t = SIZES[flavour]
+            shards, hist, maxn, steps = t[0], max(q[1], t[1] // 3), t[2], t[3]
     sim_args = ["-hist", hist, "-maxn", maxn, "-steps", steps] + FLAVOURS[flavour]
     jobs = [(i, seed * 1000 + i, sim_args, os.path.join(cdir, "shard%02d.txt" % i)) for i in range(shards)]
     with ThreadPoolExecutor(max_workers=16) as ex:
@@ -129,7 +135,7 @@ def run(ctx, flavour="static"):
 def escalate(ctx, flavour, pid, budget_shards=32):
     """The correspondence broke but the quick run's oracle found no failing input: search harder for a concrete
     failing input (more, longer histories with other seeds). Returns oracle findings of property pid."""
-    ectx = dict(ctx, tier="thorough", seed=ctx["seed"] * 7919 + 13)
+    ectx = dict(ctx, tier="escalate", seed=ctx["seed"] * 7919 + 13)
     res = run(ectx, flavour)
     f, _ = findings_for(res, pid, [])
     return f
